@@ -168,14 +168,50 @@ func gRoute(c *Check) {
 		c.Bad(rule+".c", "promise-typed message literals", "-", "-", "the code constructs promise messages somewhere", "none found")
 	}
 	// (d) readers of msgsAfterAppend
+	// sources: every load of the field, and the results of helpers that return (a slice built from) it
+	type afterSrc struct {
+		v    ssa.Value
+		fn   *ssa.Function
+		base *Sym
+	}
+	var srcs []afterSrc
 	for _, ld := range p.FieldLoads(afterF) {
 		fn := ld.Parent()
+		srcs = append(srcs, afterSrc{ld, fn, derefLoc(p.Info(fn).Sym(ld.X.(*ssa.FieldAddr).X))})
+	}
+	seenSrc := map[ssa.Value]bool{}
+	for si := 0; si < len(srcs) && si < 64; si++ {
+		src := srcs[si]
+		if seenSrc[src.v] {
+			continue
+		}
+		seenSrc[src.v] = true
+		fn := src.fn
 		fi := p.Info(fn)
-		base := derefLoc(fi.Sym(ld.X.(*ssa.FieldAddr).X))
-		for _, sk := range fi.ForwardSinks(ld) {
+		base := src.base
+		for _, sk := range fi.ForwardSinks(src.v) {
 			site := p.site(sk.Instr)
 			construct := "use of raft.msgsAfterAppend: " + sk.Kind + "/" + sk.Via
 			switch {
+			case sk.Kind == "return" && (sk.Via == "self" || sk.Via == "base") && fn.Object() != nil && !fn.Object().Exported() && len(p.CallsTo(fn)) > 0:
+				// an unexported helper hands the queue (or a slice extending it) to its callers: follow
+				for _, cs := range p.CallsTo(fn) {
+					if cv, isV := cs.Instr.(ssa.Value); isV {
+						cfi := p.Info(cs.Caller)
+						// the raft receiver as seen by the caller: the argument bound to the helper's parameter that base derives from
+						cbase := base
+						for pi, prm := range fn.Params {
+							if base != nil && strings.HasPrefix(base.Key(), fi.Sym(prm).Key()) {
+								cbase = cfi.Sym(callArgs(cs.Instr)[pi])
+								if base.Key() != fi.Sym(prm).Key() {
+									cbase = base
+								}
+							}
+						}
+						srcs = append(srcs, afterSrc{cv, cs.Caller, cbase})
+					}
+				}
+				c.OkTrivial(rule+".d", construct, fnName(fn), site, "returned by an unexported helper; followed into its callers", "")
 			case sk.Kind == "len" || sk.Kind == "read" || sk.Kind == "range":
 				c.OkTrivial(rule+".d", construct, fnName(fn), site, "length / getter reads release nothing", "")
 			case sk.Kind == "arg" && sk.Via == "elemof":
